@@ -212,6 +212,12 @@ def check(case):
     fullt_all = [int(t) for t in full.times]
     first_pause = case['pauses'][0]
     res = CMP.compare(sp, case['rules'], full, CMP.Table(parts), what='run in parts')
+    if res is not None and res[0] == 'fail' and not res[1].startswith('index/'):
+        # judge a value/status difference against what two executions of the uninterrupted run differ by themselves
+        noise = S.run_wntr(build(case), hw_approx=hw, tol=2.5e-9)
+        if noise.exception is not None or not noise.ok:
+            return inconclusive('the uninterrupted run is not reproducible under a solver-tolerance perturbation', tags)
+        res = CMP.compare(sp, case['rules'], full, CMP.Table(parts), what='run in parts', noise=noise)
     if res is not None:
         if res[0] == 'inconclusive':
             return inconclusive(res[1], tags)
